@@ -298,6 +298,19 @@ example :
     Current t0 2 fs1 [] := by
   simp [Current, CurrentKids, save, runTasks, runWrites, tasksTree, tasksKids, numel, load, loadEntries, Slots.write, nodeMeta, metaEntry,
     makeMemmap, writeLeaf, zeros]
+-- non-vacuity with a tensorclass entry: its meta.json (class, non-tensor fields) and its tensordict under `_tensordict`;
+-- `load_save` applies to it (in any directory, under any completion order of the six writer tasks)
+example :
+    let tc := Tree.tclass "C11Pair" "nofields" [("_tensordict", .node [2] "cpu" [("u", .leaf "torch.uint8" [2] [1, 2]), ("tag", .nontensor "T" [2])])]
+    let t := Tree.node [2] "cpu" [("a", .leaf "torch.uint8" [2] [5, 6]), ("p", tc)]
+    PathSafe t ∧ WF t ∧ (tasksTree [] t).length = 6
+      ∧ ∀ fs ts, (tasksTree [] t).Perm ts → load (depth t) (runTasks fs ts) [] = some t := by
+  intro tc t
+  have hs : PathSafe t := by simp [t, tc, PathSafe, PathSafeKids, entryName]
+  have hw : WF t := by
+    simp only [t, tc, WF, WFKids, isColl, numel]
+    simp
+  exact ⟨hs, hw, by simp [t, tc, tasksTree, tasksKids, numel], fun fs ts hp => load_save fs [] t rfl hs hw ts hp⟩
 /-- the excluded point: key "a.memmap" as a node beside a leaf "a" -/
 example : ¬ PathSafe (.node [] "None" [("a", .leaf "torch.uint8" [] [1]), ("a.memmap", .node [] "None" [])]) := by
   simp [PathSafe, entryName]
